@@ -137,9 +137,16 @@ pub fn execute(check: &dyn Check, p: &Params, tape_data: Option<Vec<u64>>, want_
     };
     let mut ctx = Ctx::new(p.trace, want_sample);
     LAST_PANIC.with(|lp| *lp.borrow_mut() = None);
+    // a quarter of the runs execute with trace logging enabled (decided by the run seed)
+    let logging = p.seed % 4 == 1;
+    crate::logsink::set(logging);
+    if logging {
+        ctx.count("trace_logging_enabled");
+    }
     let r = catch_unwind(AssertUnwindSafe(|| {
         check.run(p, &mut tape, &mut ctx);
     }));
+    crate::logsink::set(false);
     crate::s3sim::uninstall();
     let mut harness_error = None;
     if r.is_err() {
